@@ -119,6 +119,16 @@ impl LogicalLineFileFormatter for OptimisingLineFormatter {
         let mut lines_to_reflow: Vec<(usize, &LogicalLine)> = vec![];
         for mut line in input.iter().enumerate() {
             if string_formatter.format_multiline_strings(line.1, olf.formatted_tokens) {
+                // The rewritten strings have a different length to the one that was cached
+                // before wrapping; the reflow below must measure the new contents.
+                for &token_index in line.1.get_tokens() {
+                    if let (Some(token_length), Some((token, _))) = (
+                        olf.token_lengths.get_mut(token_index),
+                        olf.formatted_tokens.get_token(token_index),
+                    ) {
+                        token_length.content = token.get_content().len() as u32;
+                    }
+                }
                 // Need to reflow the line now that the strings have been changed.
                 // All line-wrapping starts from the top-level parent line, though.
                 while let Some(parent) = line.1.get_parent() {
